@@ -42,7 +42,7 @@ class Src(DataStreamProcessor):
         for r in self.resources_spec:
             schema = {'fields': copy.deepcopy(r['fields'])}
             if r.get('pk') is not None:
-                schema['primaryKey'] = list(r['pk'])
+                schema['primaryKey'] = r['pk'] if isinstance(r['pk'], str) else list(r['pk'])   # (the string form is legal Table Schema)
             if r.get('missingValues') is not None:
                 schema['missingValues'] = list(r['missingValues'])
             d = {'name': r['name'], 'path': r.get('path', r['name'] + '.csv'), 'schema': schema,
